@@ -154,8 +154,17 @@ def _install_probe() -> None:
                     rec.ticks.append(_snapshot(self, tick, ok, rec))
                 except Exception as e:  # noqa: BLE001
                     rec.notes.append({"probe_error": repr(e)})
-            if rec is not None and ok and getattr(rec, "tick_hook", None) is not None:
-                rec.tick_hook(self, tick)
+            if rec is not None and getattr(rec, "tick_hook", None) is not None:
+                recorded = ok
+                if not ok:
+                    # a tick whose commands end the run by raising (failure, timeout, cancel) was still reduced and recorded
+                    try:
+                        tl = base_adapter(self.adapter)._queues.ticks
+                        recorded = bool(tl) and tl[-1] is tick
+                    except Exception:  # noqa: BLE001
+                        recorded = False
+                if recorded:
+                    rec.tick_hook(self, tick)
 
     orig_run = R.run
 
